@@ -458,6 +458,38 @@ def runRetrieve (found : Text → Bool) (stmt : RetrieveStmt) (uses : Nat) : Lis
     .retrieve bank :: List.replicate uses (.useContainer (!found bank))
   | .other => List.replicate uses (.useContainer true)
 
+/-! ## the executed job (thorough tier: the rendered job compiled against a mock event store)
+
+Not the subject of a theorem: C++ semantics is validated by running g++-compiled jobs, not proved
+(DESIGN §7).  `ExecSpec` is what the log of the mock store / event must look like. -/
+
+/-- one request the mock event store / event received -/
+structure ReqObs where
+  ty : Text
+  bank : Text
+  ok : Bool
+deriving DecidableEq, Repr, Inhabited
+
+/-- up to and including the first element satisfying `p` -/
+def takeThrough {α : Type} (p : α → Bool) : List α → List α
+  | [] => []
+  | a :: as => if p a then [a] else a :: takeThrough p as
+
+/-- `wanted`: (container type, bank) of the calls in execution order; `fails`: banks the store
+does not hold.  The store is asked for exactly the wanted (type, bank) pairs, in order, up to and
+including the first one it does not hold; every answer is honest; the event succeeds iff nothing
+is missing, and after a missing one nothing else happens (no crash, no further request). -/
+def ExecSpec (wanted : List (Text × Text)) (fails : List Text) (reqs : List ReqObs) (success crashed : Bool) : Prop :=
+  crashed = false ∧
+  (reqs.map fun r => (r.ty, r.bank)).eraseDups = takeThrough (fun p => decide (p.2 ∈ fails)) wanted.eraseDups ∧
+  (∀ r ∈ reqs, r.ok = decide (r.bank ∉ fails)) ∧
+  success = decide (∀ p ∈ wanted, p.2 ∉ fails) ∧
+  (success = false → ∃ r, reqs.getLast? = some r ∧ r.ok = false)
+
+instance (w : List (Text × Text)) (f : List Text) (r : List ReqObs) (s c : Bool) : Decidable (ExecSpec w f r s c) := by
+  unfold ExecSpec
+  cases r.getLast? <;> exact inferInstance
+
 /-! ## reading the implementation's text (executable; used by the driver only) -/
 
 def isForLine (l : Text) : Bool := (t!"for (auto &&").isPrefixOf l
